@@ -45,6 +45,7 @@ fn emit_choice(
     let mut branch_nodes = Vec::new();
     let mut body_already_emitted = false;
     if let Some(selected_text) = &choice.selected_text {
+        let mut tags_already_emitted = false;
         let recovered_inline_divert = if choice.body.is_empty() {
             recover_selected_text_inline_divert(selected_text)
         } else {
@@ -57,6 +58,9 @@ fn emit_choice(
             && matches!(choice.body.as_slice(), [Node::Divert(_)])
         {
             branch_nodes.extend(tokenize_inline_content(&format!(" {selected_text}"))?);
+            // the tags of the selected text belong to its line: they stand before the divert
+            branch_nodes.extend(choice.selected_tags.iter().cloned().map(Node::Tag));
+            tags_already_emitted = true;
             branch_nodes.extend(choice.body.clone());
             branch_nodes.push(Node::Newline);
             body_already_emitted = true;
@@ -72,7 +76,9 @@ fn emit_choice(
         } else {
             branch_nodes.extend(tokenize_inline_content(selected_text)?);
         }
-        branch_nodes.extend(choice.selected_tags.iter().cloned().map(Node::Tag));
+        if !tags_already_emitted {
+            branch_nodes.extend(choice.selected_tags.iter().cloned().map(Node::Tag));
+        }
         if !body_already_emitted {
             // Skip the auto-newline for terminal diverts, and also for inline diverts that are
             // authored after inline selected text on the same source line (the selected text keeps
